@@ -4,8 +4,10 @@ Correspondence of Model/Hash.v with qcelemental.models.Molecule.get_hash / float
 from_arrays' bond canonicalisation, and the property oracle evaluated directly on the implementation
 (pairs that agree on the listed fields after the documented rounding must hash equal, and conversely)."""
 import contextlib
+import copy
 import hashlib as _hashlib
 import io
+import itertools
 import json
 import math
 import os
@@ -645,6 +647,11 @@ CORPUS = [
     ("corpus_ghost_only", {"symbols": ["He"], "geometry": [0, 0, 0], "real": [False]}, {"symbols": ["He"], "geometry": [0, 0, 0]}),
     ("corpus_ghost_only_defaults", {"symbols": ["He", "H"], "geometry": [0, 0, 0, 0, 0, 2], "real": [False, False]},
      {"symbols": ["He", "H"], "geometry": [0, 0, 0, 0, 0, 2], "real": [False, False], "molecular_charge": 0.0, "molecular_multiplicity": 1}),
+    # charges are resolved to 1e-4: two and three rounding units apart inside one 1e-3 bin
+    ("corpus_fractional_charge", {"symbols": ["He", "Ne"], "geometry": [0, 0, 0, 0, 0, 3], "molecular_charge": 0.3},
+     {"symbols": ["He", "Ne"], "geometry": [0, 0, 0, 0, 0, 3], "molecular_charge": 0.3002}),
+    ("corpus_fractional_fragment_charges", {"symbols": ["He", "Ne", "Ar"], "geometry": [0, 0, 0, 0, 0, 3, 0, 3, 0], "fragments": [[0], [1], [2]], "fragment_charges": [0.3, -0.3, 0.0]},
+     {"symbols": ["He", "Ne", "Ar"], "geometry": [0, 0, 0, 0, 0, 3, 0, 3, 0], "fragments": [[0], [1], [2]], "fragment_charges": [0.3003, -0.3003, 0.0]}),
 ]
 
 
@@ -1171,6 +1178,126 @@ def _update_of(m, upd, for_dict=False):
     raise KeyError(what)
 
 
+OVERRIDE_SOURCES = ["psi4_bohr", "psi4_angstrom", "numpy", "dict", "dict_from_text"]
+OVERRIDE_CORPUS = [
+    # odd electron count after the override; more than one fragment; totals given alone and together
+    ({"symbols": ["O", "H", "H"], "geometry": [0, 0, 0, 0, 1.5, 1.1, 0, -1.5, 1.1]}, "psi4_bohr", {"molecular_charge": 1.0}),
+    ({"symbols": ["O", "H", "H"], "geometry": [0, 0, 0, 0, 1.5, 1.1, 0, -1.5, 1.1]}, "dict", {"molecular_charge": 1.0, "molecular_multiplicity": 1}),
+    ({"symbols": ["O", "H", "H"], "geometry": [0, 0, 0, 0, 1.5, 1.1, 0, -1.5, 1.1]}, "numpy", {"molecular_multiplicity": 3}),
+    ({"symbols": ["He", "Ne", "H", "H"], "geometry": [0, 0, 0, 0, 0, 4, 3, 0, 0, 3, 0, 1.4], "fragments": [[0, 1], [2, 3]]}, "numpy", {"molecular_charge": 1.0}),
+    ({"symbols": ["He", "Ne", "H", "H"], "geometry": [0, 0, 0, 0, 0, 4, 3, 0, 0, 3, 0, 1.4], "fragments": [[0], [1], [2, 3]]}, "psi4_angstrom",
+     {"molecular_charge": -1.0, "molecular_multiplicity": 2}),
+    ({"symbols": ["Li", "H"], "geometry": [0, 0, 0, 0, 0, 3], "fragments": [[0], [1]]}, "dict_from_text", {"molecular_multiplicity": 3}),
+    ({"symbols": ["Li", "H"], "geometry": [0, 0, 0, 0, 0, 3], "fragments": [[0], [1]], "fragment_charges": [1.0, -1.0]}, "dict", {"molecular_charge": 2.0}),
+]
+
+
+def _override_source(m, source):
+    """what from_data is given: psi4 text (Bohr / Angstrom), a numpy array (Z, x, y, z) with `units` / `frags`, or a record that
+    carries validated=True (the molecule's own dict(); the dict of the molecule read from text) -> (data, dtype, extra keywords)"""
+    from qcelemental.models import Molecule
+    if source == "psi4_bohr":
+        return m.to_string("psi4", units="Bohr"), "psi4", {}
+    if source == "psi4_angstrom":
+        return m.to_string("psi4", units="Angstrom"), "psi4", {}
+    if source == "numpy":
+        g = np.asarray(m.geometry, dtype=float).reshape(-1, 3)
+        arr = np.column_stack([np.asarray(m.atomic_numbers, dtype=float), g])
+        seps = list(itertools.accumulate(len(f) for f in m.fragments))[:-1]
+        return arr, None, {"units": "Bohr", "frags": [int(x) for x in seps]}
+    if source == "dict":
+        return m.dict(), None, {}
+    if source == "dict_from_text":
+        return Molecule.from_data(m.to_string("psi4", units="Bohr"), dtype="psi4").dict(), None, {}
+    raise KeyError(source)
+
+
+def judge_override(case):
+    """route independence under total-charge / total-multiplicity keyword overrides: from_data(<already validated input>, molecular_charge=q
+    and/or molecular_multiplicity=m) is a REQUEST (atoms, fragments as the input gives them; the totals as given; everything else
+    about charge and spin to be derived) and must be answered like the same request made through Molecule(**kwargs): refused by both
+    or accepted by both with the same hash (and ==). The keyword route is fed the atoms exactly as from_data(<input>) without
+    overrides delivers them, so text precision plays no role. case: {"a": spec, "override": {"source": s, "kw": {...}}}.
+    Returns (observed, failure text or None, applicable?)"""
+    from qcelemental.exceptions import ValidationError
+    from qcelemental.models import Molecule
+    source, kw = case["override"]["source"], dict(case["override"]["kw"])
+    m0 = build(case["a"])
+    with contextlib.redirect_stdout(io.StringIO()):
+        data, dtype, extra = _override_source(m0, source)
+        plain = Molecule.from_data(copy.deepcopy(data), dtype=dtype, **extra)         # the input as the library reads it
+        req = {"symbols": [str(x) for x in plain.symbols], "geometry": np.asarray(plain.geometry).ravel().tolist(),
+               "masses": [float(x) for x in plain.masses], "real": [bool(x) for x in plain.real],
+               "fragments": [[int(i) for i in f] for f in plain.fragments]}
+        if plain.connectivity is not None:
+            req["connectivity"] = [tuple(b) for b in plain.connectivity]
+        req.update(kw)
+        try:
+            ma, ea = Molecule(**req), None
+        except ValidationError as e:
+            ma, ea = None, "Validation"
+        try:
+            mb, eb = Molecule.from_data(copy.deepcopy(data), dtype=dtype, **extra, **kw), None
+        except Exception as e:
+            mb, eb = None, ekind(e)
+    obs = {"keyword_route": ea or "accepted", "from_data_route": eb or "accepted", "request": {k: v for k, v in req.items() if k != "geometry"}}
+    if ma is None and mb is None:
+        return obs, (None if eb == "Validation" else f"from_data with keyword overrides raised {eb} where Molecule(**kwargs) raises ValidationError"), True
+    if ma is None or mb is None:
+        if mb is not None:
+            obs["from_data_result"] = {"molecular_charge": float(mb.molecular_charge), "molecular_multiplicity": mb.molecular_multiplicity,
+                                       "fragment_charges": [float(x) for x in mb.fragment_charges], "fragment_multiplicities": list(mb.fragment_multiplicities)}
+        return obs, ("the same request is refused by Molecule(**kwargs) (charge / multiplicity do not fit the electrons) but accepted by "
+                     "from_data(<validated input>, <total charge / multiplicity keywords>)" if ma is None else
+                     "the same request is accepted by Molecule(**kwargs) but refused by from_data(<validated input>, <total charge / multiplicity keywords>)"), True
+    pobs, bad, _ = judge_pair(ma, mb, with_dict=False)
+    obs.update(pobs)
+    for nm, m in (("keyword_result", ma), ("from_data_result", mb)):
+        obs[nm] = {"molecular_charge": float(m.molecular_charge), "molecular_multiplicity": m.molecular_multiplicity,
+                   "fragment_charges": [float(x) for x in m.fragment_charges], "fragment_multiplicities": list(m.fragment_multiplicities)}
+    if bad:
+        return obs, bad, True
+    nfr = len(mb.fragments)
+    if len(mb.fragment_charges) != nfr or len(mb.fragment_multiplicities) != nfr:
+        return obs, f"from_data with keyword overrides returned {len(mb.fragment_charges)} fragment charges / {len(mb.fragment_multiplicities)} multiplicities for {nfr} fragments", True
+    if not obs["same_hash"]:
+        return obs, ("the hash depends on the route: the same atoms, fragments and total charge / multiplicity request give different molecules "
+                     "through Molecule(**kwargs) and through from_data(<validated input>, <keywords>)"), True
+    return obs, None, True
+
+
+def override_cases(rng, spec, m0):
+    """one or two (source, total-charge / total-multiplicity keywords) requests on a generated molecule"""
+    out = []
+    for _ in range(rng.choice([1, 1, 2])):
+        r = rng.random()
+        kw = {}
+        if r < 0.45 or r >= 0.75:
+            kw["molecular_charge"] = float(rng.choice([1, -1, 1, -1, 2, 0, -2]))
+        if r >= 0.45:
+            kw["molecular_multiplicity"] = rng.choice([1, 2, 2, 3, 3, 4])
+        out.append({"a": spec, "override": {"source": rng.choice(OVERRIDE_SOURCES), "kw": kw}})
+    return out
+
+
+def fractional_charge_cases(rng, spec, m0):
+    """(label, intended, a, b): fractional total / fragment charges (the constructor accepts them) that differ by 2..4 rounding units
+    inside one 1e-3 bin, far from a rounding boundary — the hash resolves 1e-4 on charges — and by less than the rounding unit"""
+    base = {k: v for k, v in spec.items() if k not in ("molecular_charge", "fragment_charges", "molecular_multiplicity", "fragment_multiplicities")}
+    c0 = rng.choice([0.3, -0.3, 0.7, -0.7, 1.3, 0.1, -1.6, 0.5, 2.2])
+    d = rng.choice([2e-4, 3e-4, 4e-4, -2e-4, -3e-4, -4e-4])
+    out = [("charge_frac_2to4e-4", "different", dict(base, molecular_charge=c0), dict(base, molecular_charge=round(c0 + d, 4))),
+           ("charge_frac_noise", "equal", dict(base, molecular_charge=c0), dict(base, molecular_charge=c0 + rng.choice([2e-5, -3e-5, 1e-6])))]
+    nfr = len(m0.fragments)
+    if nfr > 1 and "fragments" in base:
+        i, j = rng.sample(range(nfr), 2)
+        fa, fb = [0.0] * nfr, [0.0] * nfr
+        fa[i], fa[j] = c0, -c0
+        fb[i], fb[j] = round(c0 + d, 4), -round(c0 + d, 4)
+        out.append(("fragment_charge_frac_2to4e-4", "different", dict(base, fragment_charges=fa), dict(base, fragment_charges=fb)))
+    return out
+
+
 def build_pair(case):
     ma = build(case["a"])
     for rec in case.get("chain_a", []):
@@ -1424,6 +1551,25 @@ def correspond(ctx):
             corr.hit(f"derived_unavailable:{name}:{ekind(e)}")
             continue
         add_pair("unvalidated_bonds:corpus:" + name, ucase, ua, ub)
+    def add_override(case, corpus=False):
+        src = case["override"]["source"]
+        try:
+            oobs, obad, _ = judge_override(case)
+        except Exception as e:
+            corr.hit(f"override_unavailable:{src}:{ekind(e)}")
+            return
+        corr.count("oracle:route_override")
+        corr.hit("route_override:" + src + ":" + "+".join(sorted(k.split("_")[1] for k in case["override"]["kw"])) + ":"
+                 + ("both_refuse" if oobs["keyword_route"] != "accepted" and oobs["from_data_route"] != "accepted" else "answered"))
+        if oobs.get("keyword_result") and len(oobs["keyword_result"]["fragment_charges"]) > 1:
+            corr.hit("route_override_accepted_multi_fragment")
+        if oobs.get("keyword_result") and oobs["keyword_result"]["molecular_multiplicity"] % 2 == 0:
+            corr.hit("route_override_accepted_odd_electrons")
+        if obad:
+            corr.failures.append({"stream": "oracle:route_override:" + src + (":corpus" if corpus else ""), "case": case, "what": obad, "observed": oobs})
+
+    for oa, osrc, okw in OVERRIDE_CORPUS:
+        add_override({"a": oa, "override": {"source": osrc, "kw": okw}}, corpus=True)
     for name, a, b in CORPUS:
         case = {"a": a, "b": b}
         ma, mb = build(a), build(b)
@@ -1486,6 +1632,16 @@ def correspond(ctx):
             add_pair(dstream, dcase, da, db)
         for mut in mutation_cases(rng, spec, m0):
             add_mutation({"a": spec, "mutate": mut})
+        for ocase in override_cases(rng, spec, m0):
+            add_override(ocase)
+        for label, intended, fsa, fsb in fractional_charge_cases(rng, spec, m0):
+            try:
+                fma, fmb = build(fsa), build(fsb)
+            except Exception as e:
+                corr.hit(f"perturbation_rejected:{label}:{ekind(e)}")
+                continue
+            add_canon("perturbed:" + label, fmb, {"a": fsb})
+            add_pair("perturbed:" + label, {"a": fsa, "b": fsb}, fma, fmb, intended)
         seq_done = False
         for label, intended, sp in perturbations(rng, spec, m0):
             if label in ("coord_1e-6", "symbol", "noise") and not seq_done and rng.random() < 0.4:
@@ -1693,6 +1849,9 @@ def replay(ctx, rp):
     if "mutate" in case:
         obs, bad, _ = judge_mutation(case)
         return verdict(obs, bad)
+    if "override" in case:
+        obs, bad, _ = judge_override(case)
+        return verdict(obs, bad)
     ma, mb = build_pair(case)
     obs, bad, skipped = judge_pair(ma, mb, *case_geoms(case), tol=case_tol(case), bond_mode=case_bond_mode(case))
     return verdict(obs, bad)
@@ -1762,7 +1921,11 @@ LEVEL_TEXT = (
     "<=> == in both directions and against a dict, a mutation history (every array / list a live molecule hands out through its "
     "properties and dict(), and every array it was built from, is modified in place; an independently built twin, molecules built afresh "
     "from the same arguments / JSON / psi4 text, and the molecule itself where it does not store the value must hash as before; the "
-    "modification is undone afterwards), plus equality classes on pairs, float_prep on single numbers (also judged against "
+    "modification is undone afterwards), total-charge / total-multiplicity keyword overrides on already validated inputs "
+    "(from_data(psi4 text / numpy array / validated=True dict, molecular_charge=q and/or molecular_multiplicity=m) against "
+    "Molecule(**kwargs) for the same atoms, fragments and totals: refused by both or the same hash, one charge and multiplicity per "
+    "fragment; stream route_override), fractional total / fragment charges 2-4 rounding units apart inside one 1e-3 bin (and below the "
+    "rounding unit), plus equality classes on pairs, float_prep on single numbers (also judged against "
     "the nearest multiple of 10^-n) and stored bond lists; the property oracle (exact decimal rounding of the getters' values, independent "
     "of float_prep) judges every pair on the implementation.")
 LEVEL_NOTE = (
